@@ -197,7 +197,7 @@ def observe(g, univ):
 class C13(Prop):
     pid = "C13"
     theorems = ["C13_wf_constructors", "C13_wf_every_history", "C13_refines_reference_model",
-                "C13_lookups_agree_with_content", "C13_no_value_disappears"]
+                "C13_lookups_agree_with_content", "C13_no_value_disappears", "C13_checker_sound"]
     rule = ("operation histories on GroupedList: each history starts from a list or dict "
             "constructor and applies group/group_list/append/update/remove/pop/sort/sort_by/"
             "replace_group_leader/copy with arguments from a universe of str/int/float/NaN/inf "
